@@ -226,10 +226,12 @@ def build_problem(case):
     first = True
     for p in cand:
         e = {"name": p}
-        if p in tr and cons in ("ok", "bad", "force"):
+        if p in tr and cons in ("ok", "bad", "force", "badcap"):
             c = "dis" if tr[p] > 0 else "pre"
-            if cons == "bad" and first:
+            if cons in ("bad", "badcap") and first:
                 c = "pre" if c == "dis" else "dis"
+            if cons == "badcap":          # the same constraints spelled out with a capital (input is case-insensitive)
+                c = {"dis": "Dissolve", "pre": "Precipitate"}[c]
             e["constraint"] = c
             if cons == "force" and first:
                 e["force"] = True
@@ -287,7 +289,7 @@ def run_case(case):
     if not problems:
         diags += info.get("beyond", [])[:1]        # an otherwise clean model with an unbounded transfer (class b, see docstring)
     tr = truth_transfers(case["truth"])
-    truth_in = not case.get("pert") and case.get("cons", "none") != "bad"
+    truth_in = not case.get("pert") and case.get("cons", "none") not in ("bad", "badcap")
     # "at least one model when the truth is admissible" is not part of the statement: counted in the tally only
     outcome = core.sha(repr((info["n_models"], info["sets"])))
     sample = {"case": case, "models": info["n_models"], "sets": info["sets"][:3],
@@ -380,7 +382,7 @@ def lattices(tier):
         for ws, fs in mx:
             for t in tr:
                 for ds in dsets:
-                    for cons in ("none", "ok", "bad"):
+                    for cons in ("none", "ok", "bad", "badcap"):
                         for jit in (0, 1):
                             S.append({"w": ws, "f": fs, "truth": t, "distr": ds, "cons": cons, "opts": {"range": 1}, "jit": jit})
     L["S structure: waters x mixing x truth x distractor x constraints x {exact, jittered analyses}"] = S
@@ -538,7 +540,7 @@ def run(tier):
     ev.extra["alphabet"] = {"waters": WATERS, "groups": {g: GROUPS[g][0] for g in GROUPS}, "distractors": DISTRACTORS,
                             "uncertainty_configs": {k: {"uncertainty": v[0], "balances": v[1]} for k, v in UNCS.items()},
                             "dispensable_solution_fractions(Z)": ZFRACS,
-                            "perturbations": PERTS, "constraint_modes": ["none", "ok", "bad", "force"],
+                            "perturbations": PERTS, "constraint_modes": ["none", "ok", "bad", "force", "badcap (bad, spelled Dissolve / Precipitate)"],
                             "options": ["-range", "-minimal", "-tolerance", "-mineral_water false", "-multiple_precision"]}
     ev.extra["lattice_points"] = sum(len(c) for c in L.values())
     ev.extra["completed_runs"] = stats["runs_completed"]
